@@ -55,7 +55,7 @@ def battery(ctx, h, S, rng, tag=None, wit=None, full=False):
     ks = list(range(0, mx + 2))
     filters = [None] + [("size", k) for k in ks] + [("order", k - 1) for k in ks]
     if not full and len(filters) > 7:  # sample, but always keep None and two boundary values
-        filters = [None, ("size", mx + 1), ("order", -1)] + rng.sample(filters[1:], 4)
+        filters = [None, ("size", mx + 1), ("order", -1), ("size", 0), ("order", 0)] + rng.sample(filters[1:], 4)  # (falsy filter values always in)
 
     # ---------------- listings, counts, weights ----------------------------------------
     if kind in ("H", "D", "T"):
@@ -130,7 +130,7 @@ def battery(ctx, h, S, rng, tag=None, wit=None, full=False):
         chk("get_edge_metadata(permuted)", call(h.get_edge_metadata, *a) == S.edges[k][1])
 
     # ---------------- incidence, neighbours, degrees ---------------------------------------
-    nfilters = filters if kind in ("H", "D", "T") else [None]
+    nfilters = filters  # (for the multiplex container only the incident-record listing takes a filter)
     for f in nfilters:
         kw = _fkw(f)
         sel = _sel(S, K, f)
@@ -177,6 +177,31 @@ def battery(ctx, h, S, rng, tag=None, wit=None, full=False):
             expi = [n for n in S.nodes if not any(n in K.nodes(k) and K.size(k) > 1 for k in sel)]
             goti = call(h.isolated_nodes, **kw)
             chk("isolated_nodes", not isinstance(goti, _Raised) and Counter(goti) == Counter(expi), goti, expi)
+        if f is not None and S.nodes and rng.random() < 0.3:
+            # the same filter handed over POSITIONALLY, in each method's documented parameter order:
+            # (node, order, size) for the listings and degrees, ([node,] size, order) for the isolation queries
+            o_, s_ = (f[1], None) if f[0] == "order" else (None, f[1])
+            n0 = rng.choice(sorted(S.nodes, key=repr))
+            exp0 = [k for k in sel if n0 in K.nodes(k)]
+            got = call(h.get_incident_edges, n0, o_, s_)
+            chk("get_incident_edges(positional-filter)", not isinstance(got, _Raised) and Counter(key_from_lib(kind, e) for e in got) == Counter(exp0), got, (f, n0))
+            if kind != "M":
+                chk("degree(positional-filter)", call(h.degree, n0, o_, s_) == len(exp0), f, n0)
+                chk("degree_sequence(positional-filter)", call(h.degree_sequence, o_, s_) == degs, f)
+            if hasattr(h, "get_neighbors"):
+                expn0 = set().union(*[K.nodes(k) for k in exp0]) - {n0} if exp0 else set()
+                gotn = call(h.get_neighbors, n0, o_, s_)
+                chk("get_neighbors(positional-filter)", not isinstance(gotn, _Raised) and set(gotn) == expn0, gotn, (f, n0))
+                if hasattr(h, "is_isolated"):
+                    chk("is_isolated(positional-filter)", bool(call(h.is_isolated, n0, s_, o_)) == (len(expn0) == 0), f, n0)
+                if hasattr(h, "isolated_nodes"):
+                    goti = call(h.isolated_nodes, s_, o_)
+                    chk("isolated_nodes(positional-filter)", not isinstance(goti, _Raised) and Counter(goti) == Counter(expi), goti, f)
+            if kind in ("H", "D"):
+                got = call(h.get_edges, o_, s_)
+                chk("get_edges(positional-filter)", not isinstance(got, _Raised) and {key_from_lib(kind, e) for e in got} == set(sel) and len(got) == len(sel), got, f)
+            if kind in ("H", "T"):
+                chk("num_edges(positional-filter)", call(h.num_edges, o_, s_) == len(sel), f)
     for n in absent_nodes:
         r_ = call(h.get_incident_edges, n)
         chk("get_incident_edges(absent)->value", isinstance(r_, _Raised) or not r_, r_)
